@@ -16,6 +16,8 @@ pub const SNAPTHREADS: i64 = 9;
 
 /// `nr` for `inject`: any system call number (the marker call itself is never injected)
 pub const ANY_NR: i64 = -1;
+/// add to a scope: the call is executed and only its result is replaced afterwards
+pub const SCOPE_POST: i64 = 16;
 
 pub const SCOPE_THREAD: i64 = 0;
 pub const SCOPE_PROCESS: i64 = 1;
